@@ -122,6 +122,9 @@ def rel_reserved(q: ast.AST, draw):
         if draw(st.integers(0, 2)) == 0:
             # ... or the name the executor itself would give to a shadowing parameter (<name>_s<n>, n from a counter that outcome() pins)
             new = f"{draw(st.sampled_from(params))}_s{S_BASE + draw(st.sampled_from([0, 0, 1, 2]))}"
+        elif draw(st.integers(0, 2)) == 0:
+            # ... or the names the Sum / Count / Min / Max shortcuts use for the lambdas they turn into
+            new = draw(st.sampled_from(["v", "acc", "v"]))
         else:
             new = f"arg_{ARG_BASE + draw(st.sampled_from([0, 0, 1, 2, 3]))}"
         if new in used or a.arg.startswith("arg_"):
@@ -337,8 +340,36 @@ def reserved_shadow(draw, backend):
 
 
 @st.composite
+def shortcut_names(draw, backend):
+    """an outer parameter that a Select feeding Sum / Max / Min / Count mentions; variant: that parameter is called v or acc - the names the
+    shortcuts' own lambdas use"""
+    sch = standard_schema(backend)
+    acc_, bank, vecs, nums = CHAIN_PROFILE[backend]
+    v1 = draw(st.sampled_from(vecs))
+    m = draw(st.sampled_from(nums))
+    agg = draw(st.sampled_from(["Sum()", "Sum()", "Max()", "Count()", "Min()"]))
+    how = draw(st.sampled_from(["select", "where", "lambda-call"]))
+    new = draw(st.sampled_from(["v", "acc", "v"]))
+
+    def text(x):
+        if how == "select":
+            inner = f"{x}.{v1}().Select(lambda w: w * {x}.{m}()).{agg}"
+        elif how == "where":
+            inner = f"{x}.{v1}().Where(lambda w: w > {x}.{m}()).Select(lambda u: u + 1).{agg}"
+        else:
+            return (f"Select({dataset_text(sch)}, lambda e: (lambda {x}: e.{acc_}({bank!r}).Select(lambda j: j.{m}() * {x}).{agg})"
+                    f"(e.{acc_}({bank!r}).Count()))")
+        return f"Select(SelectMany({dataset_text(sch)}, lambda e: e.{acc_}({bank!r})), lambda {x}: {inner})"
+
+    return text("x0"), text(new), 1
+
+
+@st.composite
 def cases(draw, backend):
-    rel = draw(st.sampled_from(["qastle", "alpha", "shadow", "shadow", "metadata", "fuse", "shadow-chain", "reserved", "reserved-shadow"]))
+    rel = draw(st.sampled_from(["qastle", "alpha", "shadow", "shadow", "metadata", "fuse", "shadow-chain", "reserved", "reserved-shadow", "shortcut-names"]))
+    if rel == "shortcut-names":
+        a, b, n = draw(shortcut_names(backend))
+        return {"backend": backend, "rel": "alpha", "a": a, "b": b, "nested": True, "info": {"reserved_names": n}, "labels": ["shortcut-names"]}
     if rel == "reserved-shadow":
         a, b, n = draw(reserved_shadow(backend))
         return {"backend": backend, "rel": "alpha", "a": a, "b": b, "nested": True, "info": {"reserved_names": n}, "labels": ["reserved-shadow"]}
